@@ -10,6 +10,7 @@ structure D where
   spec : List Obj := []          -- the specification's bucket
   lastMut : String := ""
   ordBroken : List (List (List Nat)) := []   -- keys whose content came from a completion where name order ≠ number order
+  shadowed : List (List (List Nat)) := []    -- keys acknowledged by PUT/copy but stored elsewhere (the key named a directory)
 
 def keyOfTok (t : String) : List (List Nat) := cleanSegs (tokBytes t)
 
@@ -43,7 +44,18 @@ def step (d : D) (n : Nat) (ln : Line) : D × List String :=
   | "put" =>
     let k := keyOfTok (a.getD 0 "-")
     let data : List Seg := [⟨tokNat (a.getD 1 ""), 0, tokNat (a.getD 2 "")⟩]
-    ({ d with st := putObj d.st k data, spec := specPut d.spec k data, lastMut := "put" }, diff n ln ["ok"] ++ ["COV put"])
+    match putTarget d.st k with
+    | none =>
+      -- refused by the filer ("… is a file"); should the gateway acknowledge it anyway, the specification holds it to that
+      let spec' := if o.getD 0 "" == "ok" then specPut d.spec k data else d.spec
+      ({ d with spec := spec' }, diff n ln ["e500"] ++ ["COV put.below-an-object"])
+    | some t =>
+      let sh := if t != k then k :: d.shadowed else d.shadowed.filter (· ≠ k)
+      let j := if t != k then [specfail n "PutObjectHandler/key-naming-a-directory-stored-inside-it" (a.getD 0 "")] else []
+      -- the specification trusts the acknowledgement the IMPLEMENTATION gave
+      let spec' := if o.getD 0 "" == "ok" then specPut d.spec k data else d.spec
+      ({ d with st := putObj d.st t data, spec := spec', lastMut := "put", shadowed := sh },
+       diff n ln ["ok"] ++ j ++ [if t != k then "COV put.onto-directory" else "COV put"])
   | "get" =>
     let k := keyOfTok (a.getD 0 "-")
     let av := tokInt (a.getD 1 "-1"); let bv := tokNat (a.getD 2 "0")
@@ -54,7 +66,9 @@ def step (d : D) (n : Nat) (ln : Line) : D × List String :=
       | some ob => readToks (specRead ob.data av bv)
       | none => ["e404"]
     let j := if o == want then [] else
-      [specfail n (if d.ordBroken.contains k then "completeMultipartUpload/parts-not-in-numeric-order" else "GetObject/not-the-written-bytes") (String.intercalate " " a)]
+      [specfail n (if d.ordBroken.contains k then "completeMultipartUpload/parts-not-in-numeric-order"
+                   else if d.shadowed.contains k then "PutObjectHandler/key-naming-a-directory-stored-inside-it"
+                   else "GetObject/not-the-written-bytes") (String.intercalate " " a)]
     let cov := (if av ≥ 0 then ["COV get.range"] else ["COV get.full"]) ++
       (match findObj d.st k with | some ob => if size ob.data > chunkSize then ["COV get.multi-chunk"] else [] | none => ["COV get.missing"])
     (d, diff n ln model ++ j ++ cov)
@@ -62,9 +76,16 @@ def step (d : D) (n : Nat) (ln : Line) : D × List String :=
     let src := keyOfTok (a.getD 0 "-"); let dst := keyOfTok (a.getD 1 "-")
     match findObj d.st src with
     | some ob =>
-      let sd := (d.spec.find? (fun x => x.key == src)).map (·.data) |>.getD ob.data
-      let brk := if d.ordBroken.contains src then dst :: d.ordBroken else d.ordBroken
-      ({ d with st := putObj d.st dst ob.data, spec := specPut d.spec dst sd, lastMut := "copy", ordBroken := brk }, diff n ln ["ok"] ++ ["COV copy"])
+      match putTarget d.st dst with
+      | none => (d, diff n ln ["e500"] ++ ["COV copy.below-an-object"])
+      | some t =>
+        let sd := (d.spec.find? (fun x => x.key == src)).map (·.data) |>.getD ob.data
+        let brk := if d.ordBroken.contains src then dst :: d.ordBroken else d.ordBroken
+        let sh := if t != dst then dst :: d.shadowed else d.shadowed.filter (· ≠ dst)
+        let j := if t != dst then [specfail n "PutObjectHandler/key-naming-a-directory-stored-inside-it" (a.getD 1 "")] else []
+        let spec' := if o.getD 0 "" == "ok" then specPut d.spec dst sd else d.spec
+        ({ d with st := putObj d.st t ob.data, spec := spec', lastMut := "copy", ordBroken := brk, shadowed := sh },
+         diff n ln ["ok"] ++ j ++ ["COV copy"])
     | none => (d, if o.getD 0 "" == "ok" then [s!"DIFF {n} copy of a missing source succeeded"] else ["COV copy.missing"])
   | "mpinit" =>
     ({ d with st := setUp d.st ⟨a.getD 0 "", tokBytes (a.getD 1 "-"), []⟩ }, diff n ln ["ok"] ++ ["COV mpinit"])
@@ -96,6 +117,7 @@ def step (d : D) (n : Nat) (ln : Line) : D × List String :=
     | none => (d, [s!"DIFF {n} unknown upload"])
     | some up =>
       if up.parts.isEmpty then (d, diff n ln ["e404"] ++ ["COV mpdone.empty"])
+      else if !completeAllowed d.st (cleanSegs up.key) then (d, diff n ln ["e500"] ++ ["COV mpdone.key-conflict"])
       else
         let k := cleanSegs up.key
         let data := concatParts up.parts
@@ -121,9 +143,12 @@ def step (d : D) (n : Nat) (ln : Line) : D × List String :=
     let j := if o == want then [] else
       [specfail n (if d.lastMut == "del" then "DeleteObjectHandler/key-naming-a-directory-deletes-subtree"
                    else if d.lastMut == "bdel" then "DeleteMultipleObjectsHandler/cleaned-name-deletes-other-key"
+                   else if !d.shadowed.isEmpty then "PutObjectHandler/key-naming-a-directory-stored-inside-it"
                    else "namespace/not-exactly-the-written-keys") (String.intercalate " " o)]
     -- once reported, the specification follows the implementation (one report per deviation)
-    ({ d with spec := d.spec.filter fun ob => d.st.objs.any fun m => m.key == ob.key }, diff n ln model ++ j ++ ["COV ls"])
+    let spec' := if j.isEmpty then d.spec else
+      d.st.objs.map fun m => match d.spec.find? (fun x => x.key == m.key) with | some x => x | none => m
+    ({ d with spec := spec', shadowed := if j.isEmpty then d.shadowed else [] }, diff n ln model ++ j ++ ["COV ls"])
   | _ => (d, [s!"DIFF {n} unknown-op {ln.op}"])
 
 def main : IO Unit := run { init := ({} : D), step := step }
